@@ -55,6 +55,7 @@ def laplacian(
     Returns:
         scipy.sparse.csc_matrix : the Laplacian operator as a sparse matrix
     """
+    n = len(mesh.vertices)
     n_coeffs = 12*len(mesh.faces)
     if cotan:
         if mesh.face_corners.has_attribute("cotan"):
@@ -85,7 +86,7 @@ def laplacian(
                 rows[_c], cols[_c], coeffs[_c], _c = i, j, -v, _c+1
                 rows[_c], cols[_c], coeffs[_c], _c = j, i, -v, _c+1 
     
-    mat = sp.csc_matrix((coeffs,(rows,cols)), dtype= (complex if connection else np.float64))
+    mat = sp.csc_matrix((coeffs,(rows,cols)), shape=(n,n), dtype= (complex if connection else np.float64))
     return mat
 
 ##### For Surface, on faces #####
